@@ -7,6 +7,8 @@ exit 2  UNDECIDED obligation=<name>              (solver budgets exhausted; neve
 exit 3  checker error: anchor not found, function outside the supported subset, vacuity alarm, crash
 """
 import argparse
+import faulthandler
+import signal
 import importlib
 import json
 import os
@@ -29,6 +31,7 @@ def ensure_venv():
 
 
 def main():
+    faulthandler.register(signal.SIGUSR1, all_threads=True)
     ap = argparse.ArgumentParser()
     ap.add_argument("prop")
     ap.add_argument("--tier", default=os.environ.get("VERIF_TIER", "quick"))
